@@ -271,6 +271,87 @@ def check_case(d, S, X, v=None, hop=None, with_reference=True):
     return nerr, problems
 
 
+# ---- observers and hand-made errors: extension keywords are part of the public surface ---------------
+_observing = {}
+
+
+def observing_class(d):
+    """The draft's class with EVERY keyword wrapped by an observer that reads the public location attributes of
+    each error passing through (as a logging / metrics extension would).  Reading is not writing: everything
+    reported must be exactly what the plain class reports."""
+    if d not in _observing:
+        from jsonschema import validators as jv
+        cls = _e1.CLS[d]
+
+        def wrap(fn):
+            def observer(validator, value, instance, schema):
+                for error in fn(validator, value, instance, schema):
+                    look(error)
+                    yield error
+            return observer
+
+        def look(error, depth=0):
+            list(error.absolute_path), list(error.absolute_schema_path), error.json_path
+            list(error.relative_path), list(error.relative_schema_path), error.parent
+            if depth < 4:
+                for c in error.context:
+                    look(c, depth + 1)
+        _observing[d] = jv.extend(cls, {k: wrap(fn) for k, fn in cls.VALIDATORS.items()})
+    return _observing[d]
+
+
+_custom = {}
+
+
+def custom_class(d):
+    """The draft's class plus keywords that build their errors by hand, presetting some attributes as the
+    constructor allows: x-each reports every member/element at its own location with path and instance given;
+    x-named also names validator, value and schema itself; x-bare gives nothing but a message."""
+    if d not in _custom:
+        from jsonschema import validators as jv
+        cls = _e1.CLS[d]
+
+        def members(instance):
+            if isinstance(instance, dict):
+                return list(instance.items())
+            if isinstance(instance, list):
+                return list(enumerate(instance))
+            return []
+
+        def x_each(validator, value, instance, schema):
+            for k, v in members(instance):
+                yield exceptions.ValidationError("member %r" % (k,), path=[k], instance=v)
+
+        def x_named(validator, value, instance, schema):
+            for k, v in members(instance):
+                yield exceptions.ValidationError("named %r" % (k,), path=[k], instance=v, validator="x-named",
+                                                 validator_value=value, schema=schema)
+
+        def x_bare(validator, value, instance, schema):
+            if value:
+                yield exceptions.ValidationError("bare")
+        _custom[d] = jv.extend(cls, {"x-each": x_each, "x-named": x_named, "x-bare": x_bare})
+    return _custom[d]
+
+
+def custom_wrappers(d):
+    """Positions for the hand-made errors: root, below properties / items / an applicator with context."""
+    inner = [{"x-each": 1}, {"x-named": [1]}, {"x-bare": True, "x-each": 0}]
+    out = []
+    for c in inner:
+        out.append(c)
+        out.append({"properties": {"a": c}})
+        out.append({"items": c})
+        out.append({"additionalProperties": c})
+        if d >= 4:
+            out.append({"anyOf": [c, {"type": "null"}]})
+            out.append({"properties": {"a": {"oneOf": [c, {"enum": [[]]}]}}})
+        else:
+            out.append({"type": [c, "null"]})
+            out.append({"extends": [c]})
+    return out
+
+
 def check_ref_case(d, S, docs, X, split):
     """C02's placements: schema paths are walked hopping through references with the designation model."""
     cls = _e1.CLS[d]
@@ -319,9 +400,18 @@ def plan(ctx):
         for fam in ("two-slot", "nested-id", "recursive"):
             n = 8 if fam == "two-slot" else 1
             units += [(d, "ref:" + fam, i, n) for i in range(n)]
+    for d in _e1.DRAFTS:
+        for kind in ("groups", "nested"):
+            units += [(d, "observed:" + kind, i, 4) for i in range(4)]
+        units.append((d, "custom", 0, 1))
     return {
         "units": units,
-        "rule": ("C02's reference placements (two-slot skeletons, ids on the evaluation path, recursion; schema paths "
+        "rule": ("OBSERVERS: sibling groups and nested schemas x U_d validated by the draft's class with every "
+                 "keyword wrapped by an observer that reads each passing error's absolute paths / json_path / "
+                 "parent (context included): all invariants, and the same error identities as the plain class.  "
+                 "HAND-MADE ERRORS: extension keywords that construct their errors with path / instance / "
+                 "validator / schema preset, at the root and below properties, items, additionalProperties and "
+                 "context-bearing applicators.  C02's reference placements (two-slot skeletons, ids on the evaluation path, recursion; schema paths "
                  "walked by hopping through references with the designation model) and "
                  "G(draft) (singles, all ordered pairs, sibling groups, nested) x U_d (instances with pairwise "
                  "distinct leaves, plus one instance per JSON type); every error and every context error "
@@ -372,7 +462,108 @@ def run_ref_unit(unit, ctx):
             "counters": {"ref_cases": ev, "errors_checked_incl_context": nerrs}}
 
 
+def run_observed(unit, ctx):
+    d, kind, shard, n = unit[0], unit[1][9:], unit[2], unit[3]
+    U = get_ud()
+    lst = _e1.get_list(kind, d, ctx.tier)
+    cls_obs = observing_class(d)
+    ev = nt = 0
+    viol = []
+    for i in range(shard, len(lst), n):
+        S = lst[i]
+        if not _e1.accepted(d, S):
+            continue
+        v = cls_obs(S)
+        plain = _e1.CLS[d](S)
+        hop = local_hop(S)
+        for X in U:
+            ev += 1
+            k, problems = check_case(d, S, X, v, hop, with_reference=False)
+            if k:
+                nt += 1
+            if not problems:
+                try:
+                    a = sorted((_e1.ident(e) for e in v.iter_errors(X)), key=repr)
+                    b = sorted((_e1.ident(e) for e in plain.iter_errors(X)), key=repr)
+                    if a != b:
+                        problems = ["observed errors differ from the plain class's errors"]
+                except Exception as ex:
+                    problems = ["observed validation raised %s" % type(ex).__name__]
+            if problems:
+                viol.append({"signature": "C06|observed|%s" % problems[0][:50].split("%")[0].split("[")[0].split("'")[0].strip(),
+                             "size": len(str(S)) + len(str(X)),
+                             "case": {"draft": d, "schema": S, "instance": X, "observed": True},
+                             "detail": {"problems": problems[:6]}})
+    return {"evaluations": ev, "nontrivial": nt, "violations": viol, "samples": [], "outcomes": {},
+            "counters": {"observed_cases": ev}}
+
+
+def custom_problems(d, S, X):
+    cls = custom_class(d)
+    try:
+        errors = list(cls(S).iter_errors(X))
+    except Exception as e:
+        return 0, ["crash %s" % type(e).__name__]
+    problems = []
+    n = 0
+
+    def visit(e):
+        ap, asp = list(e.absolute_path), list(e.absolute_schema_path)
+        if e.parent is not None and (ap != list(e.parent.absolute_path) + list(e.relative_path) or
+                                     asp != list(e.parent.absolute_schema_path) + list(e.relative_schema_path)):
+            problems.append("absolute != parent's absolute + relative")
+        if e.json_path != render_json_path(ap):
+            problems.append("json_path differs from the rendering of the absolute path")
+        if e.validator in ("x-each", "x-named", "x-bare"):
+            try:
+                got = walk_instance(X, ap)
+                if not same(got, e.instance):
+                    problems.append("hand-made error: path %r leads to %r, recorded instance is %r" % (ap, got, e.instance))
+            except Walk as w:
+                problems.append("hand-made error: path not walkable: %s" % w)
+            if not asp or asp[-1] != e.validator:
+                problems.append("hand-made error: keyword %r is not the last schema path element %r" % (e.validator, asp))
+            try:
+                last, value, _ = walk_schema(S, asp, local_hop(S))
+                if not same(value, e.validator_value):
+                    problems.append("hand-made error: schema path leads to %r, recorded value is %r" % (value, e.validator_value))
+                if last is not e.schema and last != e.schema:
+                    problems.append("hand-made error: recorded schema is not the schema holding the keyword")
+            except Walk as w:
+                problems.append("hand-made error: schema path not walkable: %s" % w)
+        for c in e.context:
+            visit(c)
+    for e in errors:
+        n += 1
+        visit(e)
+    return n, problems
+
+
+def run_custom(unit, ctx):
+    d = unit[0]
+    U = get_ud()
+    ev = nt = 0
+    viol = []
+    for S in custom_wrappers(d):
+        for X in U:
+            ev += 1
+            k, problems = custom_problems(d, S, X)
+            if k:
+                nt += 1
+            if problems:
+                viol.append({"signature": "C06|hand-made|%s" % problems[0][:50].split("%")[0].split("[")[0].split("'")[0].strip(),
+                             "size": len(str(S)) + len(str(X)),
+                             "case": {"draft": d, "schema": S, "instance": X, "custom": True},
+                             "detail": {"problems": problems[:6]}})
+    return {"evaluations": ev, "nontrivial": nt, "violations": viol, "samples": [], "outcomes": {},
+            "counters": {"hand_made_error_cases": ev}}
+
+
 def run_unit(unit, ctx):
+    if isinstance(unit[1], str) and unit[1].startswith("observed:"):
+        return run_observed(unit, ctx)
+    if unit[1] == "custom":
+        return run_custom(unit, ctx)
     if isinstance(unit[1], str) and unit[1].startswith("ref:"):
         return run_ref_unit(unit, ctx)
     d = unit[0]
@@ -405,6 +596,19 @@ def run_unit(unit, ctx):
 
 
 def replay(case, ctx):
+    if case.get("custom"):
+        n, problems = custom_problems(case["draft"], case["schema"], case["instance"])
+        return {"reproduced": bool(problems), "problems": problems}
+    if case.get("observed"):
+        d, S, X = case["draft"], case["schema"], case["instance"]
+        v = observing_class(d)(S)
+        n, problems = check_case(d, S, X, v, local_hop(S), with_reference=False)
+        if not problems:
+            a = sorted((_e1.ident(e) for e in v.iter_errors(X)), key=repr)
+            b = sorted((_e1.ident(e) for e in _e1.CLS[d](S).iter_errors(X)), key=repr)
+            if a != b:
+                problems = ["observed errors differ from the plain class's errors"]
+        return {"reproduced": bool(problems), "problems": problems}
     if "docs" in case:
         n, problems = check_ref_case(case["draft"], case["schema"], case["docs"], case["instance"],
                                      case.get("handler_served"))
